@@ -156,6 +156,162 @@ func (ci *condIndex) requireSemantic(pat string, passWhenTrue bool, spec resultS
 	return !r && n > 0
 }
 
+// assumption: every boolean value whose canonical form matches pat has the value val
+type assumption struct {
+	pat string
+	val bool
+}
+
+// withAssumptions installs condEval for the given assumptions while fn runs; the returned counter says how many
+// boolean values of the function each assumption decided (0 = the test does not exist in the function).
+func (ci *condIndex) withAssumptions(as []assumption, fn func()) []int {
+	n := make([]int, len(as))
+	cache := map[ssa.Value]string{}
+	counted := map[ssa.Value]bool{}
+	saved := condEval
+	defer func() { condEval = saved }()
+	condEval = func(v ssa.Value) (bool, bool) {
+		if bt, isBasic := v.Type().Underlying().(*types.Basic); !isBasic || bt.Kind() != types.Bool {
+			return false, false
+		}
+		s, ok := cache[v]
+		if !ok {
+			at, isInstr := v.(ssa.Instruction)
+			if !isInstr {
+				return false, false
+			}
+			s = ci.be.plain(v, at).String()
+			cache[v] = s
+		}
+		for i, a := range as {
+			if matchCond(s, a.pat) {
+				if !counted[v] {
+					n[i]++
+				}
+				counted[v] = true
+				return a.val, true
+			}
+			if neg := negateCondString(s); neg != "" && matchCond(neg, a.pat) {
+				if !counted[v] {
+					n[i]++
+				}
+				counted[v] = true
+				return !a.val, true
+			}
+		}
+		return false, false
+	}
+	fn()
+	return n
+}
+
+// requireAssume: under the conjunction of the assumptions (the situation the property says must be rejected) no
+// successful return is reachable from the entry. Decided on values: the tests may be written as branches, as named
+// conditions, merged or split, in any order; each assumed test must exist in the function.
+func (ci *condIndex) requireAssume(c *Ctx, rule, construct string, as []assumption, spec resultSpec, bypass map[edge]bool, why string) {
+	var r bool
+	var w *ssa.BasicBlock
+	n := ci.withAssumptions(as, func() {
+		r, w = canReachSuccess(ci.f.Blocks[0], nil, successExits(ci.f, spec), mergeEdges(bypass, deadEdges(ci.f)))
+	})
+	c.Evals += len(ci.conds)
+	_ = n
+	if r {
+		c.Violated(rule, fname(ci.f), construct, why+": in that situation the successful return at "+c.P.pos(lastPos(w))+" is still reachable", lastPos(w))
+		return
+	}
+	c.Holds(rule, fname(ci.f), construct, "assuming the situation to reject, no successful return is reachable (decided on values, not on the shape of the branches)", ci.f.Pos())
+}
+
+// withInterval: while fn runs, every comparison between a value whose canonical form is `term` and an integer
+// constant is decided whenever term ∈ [lo, hi] decides it (hi < lo means unbounded above).
+func (ci *condIndex) withInterval(term string, lo, hi int64, fn func()) {
+	saved := condEval
+	defer func() { condEval = saved }()
+	cache := map[ssa.Value]string{}
+	str := func(v ssa.Value, at ssa.Instruction) string {
+		if s, ok := cache[v]; ok {
+			return s
+		}
+		s := ci.be.plain(v, at).String()
+		cache[v] = s
+		return s
+	}
+	unb := hi < lo
+	condEval = func(v ssa.Value) (bool, bool) {
+		bo, ok := v.(*ssa.BinOp)
+		if !ok {
+			if saved != nil {
+				return saved(v)
+			}
+			return false, false
+		}
+		op := bo.Op
+		var k int64
+		if c2, isK := constInt(bo.Y); isK && str(bo.X, bo) == term {
+			k = c2
+		} else if c1, isK := constInt(bo.X); isK && str(bo.Y, bo) == term {
+			k = c1
+			switch op {
+			case token.LSS:
+				op = token.GTR
+			case token.LEQ:
+				op = token.GEQ
+			case token.GTR:
+				op = token.LSS
+			case token.GEQ:
+				op = token.LEQ
+			}
+		} else {
+			if saved != nil {
+				return saved(v)
+			}
+			return false, false
+		}
+		// truth of (T op k) at both ends; decided when it cannot change inside the interval
+		switch op {
+		case token.EQL, token.NEQ:
+			in := k >= lo && (unb || k <= hi)
+			if !in {
+				return op == token.NEQ, true
+			}
+			if !unb && lo == hi {
+				return op == token.EQL, true
+			}
+		case token.LSS: // T < k
+			if !unb && hi < k {
+				return true, true
+			}
+			if lo >= k {
+				return false, true
+			}
+		case token.LEQ:
+			if !unb && hi <= k {
+				return true, true
+			}
+			if lo > k {
+				return false, true
+			}
+		case token.GTR: // T > k
+			if lo > k {
+				return true, true
+			}
+			if !unb && hi <= k {
+				return false, true
+			}
+		case token.GEQ:
+			if lo >= k {
+				return true, true
+			}
+			if !unb && hi < k {
+				return false, true
+			}
+		}
+		return false, false
+	}
+	fn()
+}
+
 // dominatedByEdge: block b is only reachable after taking edge (x -> x.Succs[k]) of an If matching pat with the given truth
 func (ci *condIndex) dominatedByCond(b *ssa.BasicBlock, pat string, truth bool) bool {
 	for ifi, s := range ci.conds {
@@ -201,7 +357,7 @@ func negateCondString(s string) string {
 func allParamNames(f *ssa.Function) map[ssa.Value]string {
 	names := map[ssa.Value]string{}
 	for _, p := range f.Params {
-		names[p] = p.Name()
+		names[p] = pname(p)
 	}
 	return names
 }
@@ -559,22 +715,13 @@ func c10SigFrom(c *Ctx) {
 	}
 	ci := newCondIndex(f, allParamNames(f))
 	spec, _ := defaultResultSpec(f)
-	entrust := ci.edges("call:bytes.Equal(c.RawSubjectPublicKeyInfo,global:entrustBrokenSPKI)", true)
-	ci.require(c, rule, "v3 parent needs valid basic constraints", "parent.BasicConstraintsValid", true, spec, mergeEdges(entrust, ci.edges("eq(parent.Version,0x3)", false)),
+	// the two basic-constraints clauses are decided on values: in the situation to reject (the Entrust exception
+	// aside) no successful return may be reachable, however the tests are grouped or named
+	notEntrust := assumption{"call:bytes.Equal(c.RawSubjectPublicKeyInfo,global:entrustBrokenSPKI)", false}
+	ci.requireAssume(c, rule, "v3 parent needs valid basic constraints", []assumption{{"eq(parent.Version,0x3)", true}, {"parent.BasicConstraintsValid", false}, notEntrust}, spec, nil,
 		"a version-3 parent without a valid basic-constraints extension must not sign certificates")
-	// non-CA: legacy bypass only for parents without basic constraints (second BCV test false) — that edge is the
-	// false edge of the BCV test that is reached when the first disjunct is false
-	var legacy = map[edge]bool{}
-	for ifi, s := range ci.conds {
-		if s == "parent.BasicConstraintsValid" {
-			b := ifi.Block()
-			// the BCV test whose true edge leads to the IsCA test
-			if t, ok := lastIf(b.Succs[0]); ok && ci.conds[t] == "parent.IsCA" {
-				legacy[edge{b, b.Succs[1]}] = true
-			}
-		}
-	}
-	ci.require(c, rule, "parent with basic constraints must be a CA", "parent.IsCA", true, spec, mergeEdges(entrust, legacy), "a parent whose basic constraints say it is not a CA must not sign certificates")
+	ci.requireAssume(c, rule, "parent with basic constraints must be a CA", []assumption{{"parent.BasicConstraintsValid", true}, {"parent.IsCA", false}, notEntrust}, spec, nil,
+		"a parent whose basic constraints say it is not a CA must not sign certificates")
 	ci.require(c, rule, "parent key usage must include certSign when present", "eq(and(0x20,parent.KeyUsage),0x0)", false, spec, ci.edges("ne(parent.KeyUsage,0x0)", false), "a parent whose key usage lacks keyCertSign must be rejected")
 	ci.require(c, rule, "unknown public key algorithm rejected", "eq(parent.PublicKeyAlgorithm,0x0)", false, spec, nil, "a parent with an unknown key algorithm must be rejected")
 	ex := successExits(f, spec)
@@ -638,7 +785,14 @@ func c10Host(c *Ctx) {
 				c.Check(ci.dominatedByCond(b, "ne(call:net.ParseIP(CAND),const:nil:net.IP)", false), rule, fname(f), fmt.Sprintf("name match #%d only when the host is not an IP literal", which), "", "an IP literal can be accepted through DNS-name matching", lastPos(b))
 			}
 			if which == 2 {
-				c.Check(ci.dominatedByCond(b, "gt(len(c.DNSNames),0x0)", false), rule, fname(f), "common name used only without SANs", "", "the common name is consulted although DNS SANs are present", lastPos(b))
+				okCN := ci.dominatedByCond(b, "gt(len(c.DNSNames),0x0)", false)
+				if !okCN {
+					// decided on values: with at least one DNS SAN this accepting return is unreachable
+					ci.withInterval("len(c.DNSNames)", 1, 0, func() {
+						okCN = !reach([]*ssa.BasicBlock{f.Blocks[0]}, deadEdges(f))[b]
+					})
+				}
+				c.Check(okCN, rule, fname(f), "common name used only without SANs", "", "the common name is consulted although DNS SANs are present", lastPos(b))
 			}
 		}
 		c.Check(n >= 2, rule, fname(f), "accepting returns found", "", "fewer than two accepting returns", f.Pos())
